@@ -793,6 +793,10 @@ class Generator(AbstractODSGenerator):
         return f'=HYPERLINK("#{self.get_in_out_sheet_name(transaction.asset)}.a{row}:z{row}"; "{value}")'
 
     def __get_hyperlinked_summary_value(self, asset: str, value: Any, year: int) -> Any:
+        if _AssetAndYear(asset, year) not in self.__tax_sheet_year_2_row:
+            # This may occur if command line time filters are activated: the yearly summary covers the whole year of the
+            # from-date, but no gain / loss row of that year may be left in the filtered detail table to link to.
+            return value
         row: int = self.__tax_sheet_year_2_row[_AssetAndYear(asset, year)]
         if isinstance(value, (RP2Decimal, int, float)):
             return f'=HYPERLINK("#{self.get_tax_sheet_name(asset)}.a{row}:z{row}"; {value})'
